@@ -204,6 +204,12 @@ def gen_float(R, idx):
     if db == 2:
         ndig = R.choice([1, 2, 5, 31, 32, 33, 40, 63, 64, 65, 100, 128, 129, 200]) if R.random() < 0.7 else R.randrange(1, 140)
     digits = "".join(R.choice(DIG[:db]) for _ in range(ndig))
+    if R.random() < 0.12:
+        # round numbers: one leading digit followed by zeros only (exact powers of the digit base and small multiples;
+        # the normalisation of the parsed significand strips all of them)
+        t = R.choice([1, 2, 4, 5, 8, 9, 10, 11, 13, 16, 17, 19, 20, 21, 27, 38, 40]) if R.random() < 0.7 else R.randrange(1, 60)
+        digits = (R.choice(DIG[1:db]) if R.random() < 0.4 else "1") + "0" * t
+        ndig = len(digits)
     z = R.randrange(5)
     if z == 0 and ndig > 2:
         digits = "0" * R.randrange(1, min(4, ndig)) + digits[3:] if ndig > 3 else digits
